@@ -123,6 +123,28 @@ Definition px_arithmetic (k1 k2 k3 k4 : f32) (p1 p2 : px) : px :=
           pb := ar_store_c (ar_calc k1 k2 k3 k4 (pb p1) (pb p2) a);
           pa := ar_store_a a |}.
 
+(* ------------------------------------------------------------------ feConvolveMatrix (extension round 4)
+   One output pixel of convolve_matrix::apply.  `win` = the (kernel value, window pixel) pairs in the order the two
+   loops visit them (whatever the edge mode, the order / target / kernel size: they only decide which pairs are in
+   the list); the four sums are the source's `+=` folds from 0.0 (new_a is only accumulated without preserveAlpha).
+   The leaf expressions cv_* are SOURCE-DERIVED (Gen/PixelTables.v). *)
+Definition cv_sum (ch : px -> Z) (win : list (f32 * px)) : f32 :=
+  fold_left (fun acc kp => fadd acc (cv_term (ch (snd kp)) (fst kp))) win (flit 0 1).
+Definition cv_out (preserve : bool) (divisor bias : f32) (sr sg sb sa : f32) (in_a : Z) : px :=
+  let new_a := if preserve then cv_alpha_preserve in_a else cv_alpha_plain sa divisor bias in
+  let ba := cv_bounded_a new_a in
+  let calc (s : f32) : Z :=
+    let x := cv_x s divisor bias new_a in
+    cv_store (if preserve then cv_calc_preserve x ba else cv_calc_plain x ba) in
+  {| pr := calc sr; pg := calc sg; pb := calc sb; pa := cv_store_a ba |}.
+Definition cv_pixel (preserve : bool) (divisor bias : f32) (win : list (f32 * px)) (in_p : px) : px :=
+  cv_out preserve divisor bias (cv_sum pr win) (cv_sum pg win) (cv_sum pb win)
+         (if preserve then flit 0 1 else cv_sum pa win) (pa in_p).
+(* filter/mod.rs apply_convolve_matrix on an image whose window pixels all equal the pixel itself (a 1x1 kernel, or a
+   1x1 image with edgeMode duplicate / wrap): ks = kernel values in visiting order *)
+Definition px_convolve_uniform (preserve : bool) (divisor bias : f32) (ks : list f32) : px -> px :=
+  run_steps (fun q => cv_pixel preserve divisor bias (map (fun k => (k, q)) ks) q) (apply_convolve_steps preserve).
+
 (* ------------------------------------------------------------------ feMorphology *)
 Inductive mop := Erode | Dilate.
 Definition morph_init (op : mop) : px :=
